@@ -60,6 +60,12 @@ def run(ck):
         jobs.append((c, selfname, 0))
     for c in ((), (b'cron',), (b'a', b'cron')):
         jobs.append((c, b'cron', 1))
+    # PID namespaces that kept the outer /proc: the whole chain inside one (3) / only the caller, as its pid 1 (4)
+    for d in (1, 2, 3):
+        for c in itertools.product([b'a', b'cron', b'(x)', b'a b'], repeat=d):
+            for selfname in (b'selfproc', b'cron'):
+                jobs.append((c, selfname, 3))
+                jobs.append((c, selfname, 4))
 
     # fabricated /proc (hide == 2): ancestries with process ids of up to 7 digits (stat lines no process of this sandbox can have)
     FN = [b'a', b'fifteen_bytes_n', b'cron', b'(x)', b'', b'crond', b'irq/9-a']
@@ -90,7 +96,7 @@ def run(ck):
         c, selfname, hide = j
         out = r.stdout.decode('latin-1')
         done = [l for l in out.splitlines() if l.startswith('DONE')]
-        tag = 'chain=%s:self=%s:hideproc=%d' % ('/'.join(x.decode() for x in c), selfname.decode(), hide) if not isinstance(hide, tuple) else 'fabricated_proc:pids=%s:chain=%s' % (hide[1], '/'.join(x.decode('latin-1') for x in c))
+        tag = ('chain=%s:self=%s:hideproc=%d' % ('/'.join(x.decode() for x in c), selfname.decode(), hide) if hide < 3 else 'chain=%s:self=%s:%s' % ('/'.join(x.decode() for x in c), selfname.decode(), 'chain_in_pidns_under_outer_proc' if hide == 3 else 'caller_is_pid1_of_pidns_under_outer_proc')) if not isinstance(hide, tuple) else 'fabricated_proc:pids=%s:chain=%s' % (hide[1], '/'.join(x.decode('latin-1') for x in c))
         if not done or r.returncode != 0:
             ck.violation('C15:abort:%s' % tag, {'rc': r.returncode, 'stdout': out[-400:], 'stderr': r.stderr.decode('latin-1')[-400:]})
             continue
